@@ -331,14 +331,14 @@ def directed_cases(ck):
     for src in ("from \u00e9 | derive x = 1e400", "let \u20ac = 1e999\nfrom t", "from t | derive {s = '\U0001F600', x = -1e400, y = 1e-400}"):
         for e in ("tokens", "compile"):
             add("directed:non-finite", e, src, **({"target": "sql.generic"} if e == "compile" else {}))
-    # C12-N18 (open): an Aggregate partitioned by its own aggregated columns
+    # C12-N18 (f30b660): an Aggregate partitioned by its own aggregated columns
     a5 = harness("rq", [{"src": "from t | aggregate {n = count this, c = count_distinct a}"}])[0]
     if "ok" in a5:
         d = copy.deepcopy(a5["ok"])
         for tr in d["relation"]["kind"]["Pipeline"]:
             if "Aggregate" in tr:
                 tr["Aggregate"]["partition"] = list(tr["Aggregate"]["compute"])
-        add("N18:agg-cycle", "json_rq", json.dumps(d), target="sql.generic")
+        add("fixed:N18", "json_rq", json.dumps(d), target="sql.generic")
     # C12-N6 (79f4a51): ids of usize::MAX
     b5 = harness("rq", [{"src": "from t | take 5"}])[0]
     if "ok" in b5:
